@@ -131,7 +131,7 @@ def check_case_variant(ctx, case, dom, rng):
 
     for i, v in enumerate(exp["vs"]):
         f = dom.to_fun(exp["fs"][i])
-        ctx.case(("forward", key, i), facet="forward_reps")
+        ctx.case(("forward", key, case["fi"], i), facet="forward_reps")
         out, err = _try(lambda: model.forward(v))
         compare("par_nd", i, out, err, "ndarray")
         if i == 0:
@@ -149,7 +149,7 @@ def check_case_variant(ctx, case, dom, rng):
             out, err = _try(lambda: model.forward(CUQIarray(f, is_par=False, geometry=dgeom), is_par=False))
             compare("arr_fun_flagged", i, out, err, "CUQIarray")
     # Samples: column-wise
-    ctx.case(("samples", key), facet="forward_samples")
+    ctx.case(("samples", key, case["fi"]), facet="forward_samples")
     S = Samples(np.column_stack(exp["vs"]), geometry=dgeom)
     out, err = _try(lambda: model.forward(S))
     sig = "forward/%s/rep=samples" % key
@@ -180,7 +180,7 @@ def check_case_variant(ctx, case, dom, rng):
         dfun = rng.to_fun(exp["dfun"])
         combos.append(("d_fun/w_par", lambda: model.gradient(dfun, w, is_direction_par=False), case["refused"], None))
     for name, call, refused, wrap in combos:
-        ctx.case(("gradient", key, name), facet="gradient")
+        ctx.case(("gradient", key, case["fi"], name), facet="gradient")
         out, err = _try(call)
         sig = "gradient/%s/%s" % (key, name)
         if refused:
@@ -207,7 +207,7 @@ def check_case_variant(ctx, case, dom, rng):
     ctx.observations["gradient_samples_wrt"]["refused" if err is not None else "returned"] += 1
 
     # ---- applying the model to a distribution only renames its input ------------------------------------------------
-    ctx.case(("rename", key), facet="rename")
+    ctx.case(("rename", key, case["fi"]), facet="rename")
     v0, o0 = exp["vs"][0], exp["outs"][0]
     names = lambda mdl: list(cuqi.utilities.get_non_default_args(mdl))
     before = names(model)
